@@ -1016,7 +1016,12 @@ def parse_marker(marker: str) -> BaseMarker:
 
     parsed = _parser.parse(marker)
 
-    markers = _compact_markers(parsed.children)
+    try:
+        markers = _compact_markers(parsed.children)
+    except RecursionError as e:
+        raise InvalidMarkerError(
+            "Invalid marker: parentheses are nested too deeply"
+        ) from e
 
     return markers
 
